@@ -89,8 +89,8 @@ def main():
             "add_only": True,
         },
         "engines": [
-            {"name": "vcheck", "path": "cmd/vcheck", "serves_properties": sorted(CHECKS.keys()),
-             "kind_free_text": "Go binary built from /repo's working tree on every run; runtime monitors (oracles over observed executions), independent reference codec, race detector, porcupine"},
+            {"name": "vcheck", "path": "cmd", "serves_properties": sorted(CHECKS.keys()),
+             "kind_free_text": "one Go binary per property (cmd/cNN, shared packages under internal/), built by ./check from /repo's working tree with -tags verif on every run (plus a -race flavour for C09 C10 C16 C18); runtime monitors (oracles over observed executions), independent reference codecs written from the spec files, the Go race detector, porcupine linearizability checking, child-process isolation"},
         ],
         "checks": [],
         "not_applicable": [],
